@@ -128,23 +128,52 @@ func (u *uni) mkN(n int) []*types.Transaction {
 	return l
 }
 
-// payload names a transaction by its hash: the Coq model sees the ETX as these bytes.
-func (u *uni) payload(tx *types.Transaction) string {
-	if tx == nil {
-		return "[]"
-	}
+// idOf names a transaction by its hash: the Coq model sees ETX number i as the bytes be_min i.
+const unknownID = 4294967295
+
+func (u *uni) idOf(tx *types.Transaction) int {
 	id, ok := u.ids[tx.Hash()]
 	if !ok {
-		return "[255;255;255;255]"
+		return unknownID
 	}
-	return hlib.CoqBytes(big.NewInt(int64(id)).Bytes())
+	return id
 }
-func (u *uni) payloads(l []*types.Transaction) string {
-	s := make([]string, len(l))
-	for i, tx := range l {
-		s[i] = u.payload(tx)
+
+// ranges prints a list of ETX names as runs (first, length) of consecutive numbers.
+func ranges(ids []int) string {
+	var parts []string
+	for i := 0; i < len(ids); {
+		j := i + 1
+		for j < len(ids) && ids[j] == ids[j-1]+1 {
+			j++
+		}
+		parts = append(parts, fmt.Sprintf("(%d, %d)", ids[i], j-i))
+		i = j
 	}
-	return hlib.CoqList(s)
+	return hlib.CoqList(parts)
+}
+
+func (u *uni) rangesOf(l []*types.Transaction) string {
+	ids := make([]int, len(l))
+	for i, tx := range l {
+		ids[i] = u.idOf(tx)
+	}
+	return ranges(ids)
+}
+
+// itemRanges prints block items as runs (first, length, gas) of consecutive names with equal gas.
+func (u *uni) itemRanges(items []item) string {
+	var parts []string
+	for i := 0; i < len(items); {
+		id0 := u.idOf(items[i].tx)
+		j := i + 1
+		for j < len(items) && u.idOf(items[j].tx) == id0+(j-i) && items[j].gas == items[i].gas {
+			j++
+		}
+		parts = append(parts, fmt.Sprintf("(%d, %d, %d)", id0, j-i, items[i].gas))
+		i = j
+	}
+	return hlib.CoqList(parts)
 }
 
 // ---------------------------------------------------------------- the real queue
@@ -386,7 +415,26 @@ func runQueue(d Desc, cw *hlib.CaseWriter) {
 	ref := &refq{oldest: new(big.Int).Set(o0)}
 	var terms []string
 	popsOK, pushes := 0, 0
-	add := func(op, out string) { terms = append(terms, "("+op+", "+out+")") }
+	// consecutive pops are written as one step: SPops k <runs of the items handed out> <number of nils>
+	var popIDs []int
+	popNones := 0
+	flushPops := func() {
+		if len(popIDs)+popNones > 0 {
+			terms = append(terms, fmt.Sprintf("SPops %d %s %d", len(popIDs)+popNones, ranges(popIDs), popNones))
+			popIDs, popNones = nil, 0
+		}
+	}
+	add := func(step string) { flushPops(); terms = append(terms, step) }
+	addPop := func(got *types.Transaction) {
+		if got == nil {
+			popNones++
+			return
+		}
+		if popNones > 0 { // an item after a nil: not one run
+			flushPops()
+		}
+		popIDs = append(popIDs, u.idOf(got))
+	}
 	checkRoot := func(where string) {
 		want, err := expectedRoot(ref)
 		if err != nil {
@@ -403,7 +451,7 @@ func runQueue(d Desc, cw *hlib.CaseWriter) {
 			defer func() {
 				if p := recover(); p != nil {
 					fail("queue:panic:"+o.k, fmt.Sprintf("op #%d %s panicked: %v", i, o.k, p))
-					add("QCommit", "(ONum 999)")
+					add("SGetK 999999999")
 				}
 			}()
 			switch o.k {
@@ -411,11 +459,11 @@ func runQueue(d Desc, cw *hlib.CaseWriter) {
 				pushes += len(o.txs)
 				if o.k == "push" {
 					err = w.st.PushETXs(o.txs)
-					add("QPush "+u.payloads(o.txs), "OUnit")
+					add("SPush " + u.rangesOf(o.txs))
 					rep.Count(fmt.Sprintf("queue:pushlen:%s", bucket(len(o.txs))))
 				} else {
 					err = w.st.PushETX(o.txs[0])
-					add("QPush1 "+u.payload(o.txs[0]), "OUnit")
+					add(fmt.Sprintf("SPush1 %d", u.idOf(o.txs[0])))
 				}
 				if err != nil {
 					fail("queue:push:error", fmt.Sprintf("op #%d push failed: %v", i, err))
@@ -426,11 +474,7 @@ func runQueue(d Desc, cw *hlib.CaseWriter) {
 				if err != nil {
 					fail("queue:pop:error", fmt.Sprintf("op #%d PopETX failed: %v", i, err))
 				}
-				if got != nil {
-					add("QPop", "(OEtx (Some "+u.payload(got)+"))")
-				} else {
-					add("QPop", "(OEtx None)")
-				}
+				addPop(got)
 				// monitor: FIFO against the slice
 				if len(ref.items) == 0 {
 					if got != nil {
@@ -464,9 +508,9 @@ func runQueue(d Desc, cw *hlib.CaseWriter) {
 					fail("queue:read:error", fmt.Sprintf("op #%d ReadETX(%s) failed: %v", i, idx, err))
 				}
 				if got != nil {
-					add("QRead "+idx.String(), "(OEtx (Some "+u.payload(got)+"))")
+					add(fmt.Sprintf("SRead %s (Some %d)", idx, u.idOf(got)))
 				} else {
-					add("QRead "+idx.String(), "(OEtx None)")
+					add(fmt.Sprintf("SRead %s None", idx))
 				}
 				off := new(big.Int).Sub(idx, ref.oldest)
 				var want *types.Transaction
@@ -482,7 +526,7 @@ func runQueue(d Desc, cw *hlib.CaseWriter) {
 					fail("queue:index:error", err.Error())
 					got = big.NewInt(0)
 				}
-				add("QOldest", "(ONum "+got.String()+")")
+				add("SOldest " + got.String())
 				if got.Cmp(ref.oldest) != 0 {
 					fail("queue:index:oldest", fmt.Sprintf("op #%d oldest index %s, expected %s", i, got, ref.oldest))
 				}
@@ -492,7 +536,7 @@ func runQueue(d Desc, cw *hlib.CaseWriter) {
 					fail("queue:index:error", err.Error())
 					got = big.NewInt(0)
 				}
-				add("QNewest", "(ONum "+got.String()+")")
+				add("SNewest " + got.String())
 				if got.Cmp(ref.newest()) != 0 {
 					fail("queue:index:newest", fmt.Sprintf("op #%d newest index %s, expected %s", i, got, ref.newest()))
 				}
@@ -501,24 +545,24 @@ func runQueue(d Desc, cw *hlib.CaseWriter) {
 				if _, err := w.commitReopen(); err != nil {
 					fail("queue:commit", fmt.Sprintf("op #%d commit/reopen: %v", i, err))
 				}
-				add("QCommit", "OUnit")
+				add("SCommit")
 			case "copy":
 				w.st = w.st.Copy()
-				add("QCommit", "OUnit")
+				add("SCommit")
 			case "setk":
 				v := new(big.Int).SetUint64(o.kval)
 				if err := w.st.UpdateKQuai(v); err != nil {
 					fail("queue:kquai:error", err.Error())
 				}
 				ref.kquai = v
-				add("QSetK "+v.String(), "OUnit")
+				add("SSetK " + v.String())
 			case "getk":
 				got, err := w.st.GetKQuai()
 				if err != nil {
 					fail("queue:kquai:error", err.Error())
 					got = big.NewInt(0)
 				}
-				add("QGetK", "(ONum "+got.String()+")")
+				add("SGetK " + got.String())
 				want := big.NewInt(0)
 				if ref.kquai != nil {
 					want = ref.kquai
@@ -529,6 +573,7 @@ func runQueue(d Desc, cw *hlib.CaseWriter) {
 			}
 		}()
 	}
+	flushPops()
 	checkRoot("end of history")
 	// monitor: a different history with the same final content has the same ETX root
 	if len(ref.items) <= 400 {
@@ -945,12 +990,8 @@ func runBlock(d Desc, cw *hlib.CaseWriter) {
 	}
 	rep.TracesValidated++
 	rep.Nontrivial(fmt.Sprintf("block/%s/%d", d.Shape, d.Sub))
-	items := make([]string, len(c.blk))
-	for i, it := range c.blk {
-		items[i] = "(" + u.payload(it.tx) + ", " + hlib.CoqN(it.gas) + ")"
-	}
 	d.Note = fmt.Sprintf("queue at %s: %d queued + %d inbound, block of %d ETXs, gas %d, block number %d, gas limit %d -> verdict %d", c.o0, len(c.pre), len(c.inbound), len(c.blk), total, c.num, c.gl, verdict)
-	cw.Add(fmt.Sprintf("CB %d %s %s %s %s %d %d %d %s %s", d.ID, c.o0, u.payloads(c.pre), u.payloads(c.inbound), hlib.CoqList(items), c.num, c.gl, verdict, oldest, newest), d)
+	cw.Add(fmt.Sprintf("CB %d %s %s %s %s %d %d %d %s %s", d.ID, c.o0, u.rangesOf(c.pre), u.rangesOf(c.inbound), u.itemRanges(c.blk), c.num, c.gl, verdict, oldest, newest), d)
 	rep.Sample(d)
 }
 
@@ -1155,14 +1196,10 @@ func runChain(d Desc, cw *hlib.CaseWriter) {
 	}
 	terms := make([]string, len(cs))
 	for i, c := range cs {
-		items := make([]string, len(c.blk))
-		for j, it := range c.blk {
-			items[j] = "(" + u.payload(it.tx) + ", " + hlib.CoqN(it.gas) + ")"
-		}
-		terms[i] = fmt.Sprintf("(%s, %d, %d, %s)", hlib.CoqList(items), c.num, c.gl, u.payloads(c.next))
+		terms[i] = fmt.Sprintf("(%s, %d, %d, %s)", u.itemRanges(c.blk), c.num, c.gl, u.rangesOf(c.next))
 	}
 	d.Note = fmt.Sprintf("queue at %s, %d candidate blocks, %d accepted, verdicts %v", o0, len(cs), accepted, verdicts)
-	cw.Add(fmt.Sprintf("CC %d %s %s %s %s %s %s", d.ID, o0, u.payloads(inb0), hlib.CoqList(terms), hlib.CoqList(verdicts), oldest, newest), d)
+	cw.Add(fmt.Sprintf("CC %d %s %s %s %s %s %s", d.ID, o0, u.rangesOf(inb0), hlib.CoqList(terms), hlib.CoqList(verdicts), oldest, newest), d)
 	rep.Sample(d)
 }
 
